@@ -36,6 +36,13 @@ func debugDump(w *World, what string, args []string) {
 			}
 		}
 		fmt.Println("proved", ok, "unproven", bad)
+	case "extremumlocal":
+		r := NewReport("C12", "quick", "/tmp/dbg")
+		r.W = w
+		RunExtremumLocal(w, r, w.LibFuncs())
+		for _, o := range r.Obls {
+			fmt.Println(o.Status, o.Pos, o.Key, o.How)
+		}
 	case "narrowarith":
 		r := NewReport("C11", "quick", "/tmp/dbg")
 		r.W = w
